@@ -237,7 +237,7 @@ func Main() {
 		},
 		Run:            run,
 		Replay:         replay,
-		QuickBudget:    170 * time.Second,
+		QuickBudget:    420 * time.Second,
 		ThoroughBudget: 60 * time.Minute,
 		MaxShards:      8,
 		MaxConfirm:     3,
